@@ -87,7 +87,23 @@ type FoldResult struct {
 // Fold tokenizes and folds s: the folded window of at most 5 tokens.
 // v is the token vector (len(v) is "pos" of the algorithm), left counts settled tokens.
 func (m *Model) Fold(s string, mode Mode) FoldResult {
+	r, _, _ := m.foldCore(s, mode)
+	return r
+}
+
+// FoldConfig returns the folder's canonical configuration at the moment the input ran out (the
+// window, the number of settled tokens, the pending trailing comment, the capped statistics), or
+// stopped=true when the folder stopped reading before the end of the input (five tokens settled
+// or the evil-brace exit): then no continuation of the input can change this mode's outcome.
+func (m *Model) FoldConfig(s string, mode Mode) (key string, stopped bool) {
+	_, key, stopped = m.foldCore(s, mode)
+	return key, stopped
+}
+
+func (m *Model) foldCore(s string, mode Mode) (FoldResult, string, bool) {
 	sc := &scanner{m: m, s: s, mode: mode}
+	eofKey := ""
+	sawEOF := false
 	var v []Tok
 	left := 0
 	more := true
@@ -100,6 +116,8 @@ func (m *Model) Fold(s string, mode Mode) FoldResult {
 		st, ok := sc.next()
 		more = ok
 		if !ok {
+			sawEOF = true
+			eofKey = configKey(nil, 0, nil, sc.stats)
 			break
 		}
 		first = st.Tok
@@ -107,10 +125,10 @@ func (m *Model) Fold(s string, mode Mode) FoldResult {
 			break
 		}
 	}
-	done := func(n int) FoldResult {
+	done := func(n int) (FoldResult, string, bool) {
 		st := sc.stats
 		st.Folds = folds
-		return FoldResult{Toks: append([]Tok(nil), v[:n]...), Stats: st, Pos: sc.pos}
+		return FoldResult{Toks: append([]Tok(nil), v[:n]...), Stats: st, Pos: sc.pos}, eofKey, !sawEOF
 	}
 	if !more {
 		return done(0)
@@ -121,6 +139,10 @@ func (m *Model) Fold(s string, mode Mode) FoldResult {
 		for more && len(v) <= MaxTokens && len(v)-left < want {
 			st, ok := sc.next()
 			more = ok
+			if !ok && !sawEOF {
+				sawEOF = true
+				eofKey = configKey(v, left, lastComment, sc.stats)
+			}
 			if ok {
 				if st.Type == TComment {
 					c := st.Tok
@@ -501,4 +523,40 @@ func (m *Model) IsSQLi(s string) (bool, string) {
 		}
 	}
 	return false, ""
+}
+
+// configKey serialises a folder configuration: everything the continuation can depend on.
+func configKey(v []Tok, left int, lastComment *Tok, st Stats) string {
+	var b strings.Builder
+	for _, t := range v {
+		b.WriteByte(t.Type)
+		b.WriteString(strings.ToUpper(t.Val))
+		b.WriteByte(1)
+		b.WriteByte(t.Open + 1)
+		b.WriteByte(t.Close + 1)
+		if t.Len == 0 {
+			b.WriteByte('0')
+		}
+		b.WriteByte(2)
+	}
+	b.WriteByte(byte('0' + left))
+	if lastComment != nil {
+		b.WriteByte('c')
+		b.WriteByte(at(lastComment.Val, 0))
+		if lastComment.Len > 2 {
+			b.WriteByte('L')
+		}
+	}
+	n := st.Tokens
+	if n > 4 {
+		n = 4
+	}
+	b.WriteByte(byte('0' + n))
+	if st.DDX != 0 {
+		b.WriteByte('d')
+	}
+	if st.Hash != 0 {
+		b.WriteByte('h')
+	}
+	return b.String()
 }
